@@ -36,6 +36,8 @@ Definition leaf_close (a b : leaf (T:=Q)) : bool :=
   | LDist v, LDist v' => qsc v v'
   | LAbs k, LAbs k' => Nat.eqb k k'
   | LAbsD k x, LAbsD k' x' => Nat.eqb k k' && qsc x x'
+  | LPwNorm n p w, LPwNorm n' p' w' => Nat.eqb n n' && Z.eqb p p' && qsc w w'
+  | LPwInner n w vf, LPwInner n' w' vf' => Nat.eqb n n' && qsc w w' && qsc vf vf'
   | _, _ => false
   end.
 
